@@ -2,7 +2,7 @@
 From Coq Require Import ZArith QArith List Bool.
 From KV Require Import Base.IEEE Base.Outcome Base.Num C19.Model C06.Model C06.Dur C06.Run.
 From KV Require Import C04.Transport C04.Resampler C04.StaticData C04.StaticSound C04.ProofsTransport.
-From KV Require Import C09.Model C09.ProofsShell C09.ProofsDecoder C09.ProofsTape C09.ProofsMain C09.ProofsLead C09.ProofsAtomic C09.ProofsExamples C09.Run.
+From KV Require Import C09.Model C09.ProofsShell C09.ProofsDecoder C09.ProofsTape C09.ProofsMain C09.ProofsLead C09.ProofsAtomic C09.ProofsExamples C09.ProofsPosition C09.Run.
 Import ListNotations.
 Local Open Scope Z_scope.
 
@@ -296,3 +296,32 @@ Proof. exact negative_zero_regression. Qed.
 Theorem old_direction_test_reads_the_sign_bit_refuted :
   let r := f64_of_bits nz64 in nsignneg r = true /\ nltb r n0 = false /\ nabs r = f64_of_bits 0 /\ nmax0 r = nabs r.
 Proof. exact old_direction_test_reads_the_sign_bit. Qed.
+
+(** The position reported at the start of a callback, in EVERY state of the streaming sound (whatever was pushed and
+    popped before — so wherever in its 16384 physical slots the ring's read position stands): if the ring holds two
+    entries, [on_start_processing] publishes [(index of the SECOND entry + fraction) / sample rate], makes that index
+    the current frame and leaves the ring alone ... *)
+Theorem on_start_position_from_second_entry :
+  forall (T : Type) (NT : Num T) (A V P : Type) (silence identity : V)
+         (z : stream_sound T A V P) (c : cmds T V P) (e0 : A * Z) (a : A) (i : Z) (rest : list (A * Z)),
+    y_ring (z_core z) = e0 :: (a, i) :: rest ->
+    let y := z_core z in
+    let pos := ndiv (nadd (nofZ i) (y_fpos y)) (nofZ (y_sr y)) in
+    exists st,
+      snd (stream_on_start A V silence identity P z c)
+        = OPos pos st i (y_fpos y) (Z.of_nat (length (y_ring y))) /\
+      y_cur (z_core (fst (stream_on_start A V silence identity P z c))) = i /\
+      y_pos (z_core (fst (stream_on_start A V silence identity P z c))) = pos /\
+      y_ring (z_core (fst (stream_on_start A V silence identity P z c))) = y_ring y.
+Proof. exact (@ProofsPosition.on_start_position_from_second_entry). Qed.
+(** ... and the frame index of an earlier callback is reported again only when the ring holds fewer than two entries
+    (the decoder has not kept ahead, or the data has ended). *)
+Theorem on_start_position_kept_only_when_ring_short :
+  forall (T : Type) (NT : Num T) (A V P : Type) (silence identity : V)
+         (z : stream_sound T A V P) (c : cmds T V P),
+    (length (y_ring (z_core z)) < 2)%nat ->
+    let y := z_core z in
+    y_cur (z_core (fst (stream_on_start A V silence identity P z c))) = y_cur y /\
+    y_pos (z_core (fst (stream_on_start A V silence identity P z c)))
+      = ndiv (nadd (nofZ (y_cur y)) (y_fpos y)) (nofZ (y_sr y)).
+Proof. exact (@ProofsPosition.on_start_position_kept_only_when_ring_short). Qed.
